@@ -205,6 +205,10 @@ def shards(tier, seed):
     for n, ea, eb in HISTORY_PAIRS:
         for pn, pe in ((2, [[1, 2]]), (2, []), (3, [[1, 2]])):
             sh.append(dict(h="history", params=dict(n=n, edges_a=ea, edges_b=eb, pn=pn, pedges=pe)))
+    # hosts whose smallest component comes first in the numbering (all_shapes lists isolated atoms last) against a pattern
+    # with components of different sizes
+    for hn, he in ((4, [[2, 3]]), (4, [[3, 4]]), (5, [[2, 3], [4, 5]])):
+        sh.append(dict(h="search", params=dict(hn=hn, hedges=he, pn=3, pedges=[[1, 2]], charges=[0], hmax=0, limits=False)))
     # charges -1 / -2: different labels whose hash() values coincide in CPython
     for hn, he, pn, pe in ((2, [[1, 2]], 1, []), (2, [[1, 2]], 2, [[1, 2]]), (3, [[1, 2], [2, 3]], 2, [[1, 2]]), (2, [], 2, [])):
         sh.append(dict(h="search", params=dict(hn=hn, hedges=he, pn=pn, pedges=pe, charges=[-2, -1], hmax=0, limits=False)))
